@@ -314,7 +314,7 @@ func c07(r *Report) {
 	r.Guard("C07.R5", "an exchange whose request modifier has started is not cut by shutdown", func() {
 		g := G(handle)
 		// no select and no receive on p.closing in the exchange functions
-		for _, f := range []*ssa.Function{handle, r.Use("", "Proxy.handleConnectRequest"), r.Use("", "Proxy.roundTrip")} {
+		for _, f := range []*ssa.Function{handle, r.Use("", "Proxy.handleConnectRequest"), r.W.Fn("", "Proxy.roundTrip")} {
 			if f == nil {
 				continue
 			}
